@@ -4,6 +4,7 @@ import os, sys, json, time, re, fnmatch, hashlib, collections
 from . import driver, core
 
 _PROG = {}
+MAX_REPLAYS = 6
 
 def get_prog(path):
     p = _PROG.get(path)
@@ -91,6 +92,7 @@ def run_check(prop, cases, tier, seed, level='model_checking', functions=(), bou
     viol_lines, known_lines, inconc = [], [], []
     n_viol = 0
     replays = 0
+    unreplayed = 0
     broken = []
     seen_known = set()
     for res in results:
@@ -110,6 +112,10 @@ def run_check(prop, cases, tier, seed, level='model_checking', functions=(), bou
             case = next(c for c in cases if c.name == res['case']) if res.get('fn') else None
             if v['tape'] is None:
                 inconc.append('%s: violation without model: %s' % (res['case'], msg))
+                continue
+            k0 = match_known(known, prop, res['case'], msg)
+            if replays >= MAX_REPLAYS and (n_viol > 0 or (k0 and k0['id'] in seen_known)):
+                unreplayed += 1
                 continue
             d = driver.write_replay(prop, re.sub(r'[^A-Za-z0-9_.-]', '_', res['case'] + '_' + hashlib.md5(msg.encode()).hexdigest()[:6]),
                                     res['pkg'], _replay_fn(res), v['tape'], note='%s %s: %s' % (prop, res['case'], msg))
@@ -176,6 +182,7 @@ def run_check(prop, cases, tier, seed, level='model_checking', functions=(), bou
         'explanation': explanation,
         'inconclusive': inconc[:50],
         'known_findings_matched': sorted(seen_known),
+        'violations_not_replayed_beyond_cap': unreplayed,
         'encoding_source': os.path.basename(ssa) + ' (regenerated from /repo working tree on this run)',
     }
     if extra_cov:
